@@ -621,6 +621,42 @@ func keyComponentIn(v ssa.Value, bind map[ssa.Value]ssa.Value, depth int) (ssa.V
 			return nil, 0, false
 		}
 		return res(keyV), k, true
+	case *ssa.Phi:
+		// a component that is decoded once and carried round a loop (`if !split { name = segments[1]; split = true }`): every
+		// edge that is not the empty string the variable was declared with is the same component of the same key
+		var key ssa.Value
+		idx, n := int64(0), 0
+		seen := map[*ssa.Phi]bool{}
+		var leaves func(ph *ssa.Phi) bool
+		leaves = func(ph *ssa.Phi) bool {
+			if seen[ph] {
+				return true
+			}
+			seen[ph] = true
+			for _, e := range ph.Edges {
+				e = res(e)
+				if p2, isPhi := e.(*ssa.Phi); isPhi {
+					if !leaves(p2) {
+						return false
+					}
+					continue
+				}
+				if sv, isS := core.ConstString(e); isS && sv == "" {
+					continue
+				}
+				k, i, ok := keyComponentIn(e, bind, depth+1)
+				if !ok || (n > 0 && (k != key || i != idx)) {
+					return false
+				}
+				key, idx = k, i
+				n++
+			}
+			return true
+		}
+		if !leaves(x) || n == 0 {
+			return nil, 0, false
+		}
+		return key, idx, true
 	}
 	return nil, 0, false
 }
